@@ -128,7 +128,7 @@ PROPS = {
         "assumptions": ["argument and parameter names are meaningful (crossed-names detector: fires only on a crossing, never on merely different names)"],
     },
     "C20": {
-        "rules": [("CLI-2", cli.cli2), ("CLI-3", cli.cli3), ("CLI-5", cli.cli5), ("CLI-8", r5.cli8), ("CLI-11", r5.cli11), ("CLI-13", r5.cli13), ("CLI-15", r5.cli15), ("CLI-16", r5.cli16), ("CLI-17", r5.cli17)],
+        "rules": [("CLI-2", cli.cli2), ("CLI-3", cli.cli3), ("CLI-5", cli.cli5), ("CLI-8", r5.cli8), ("CLI-11", r5.cli11), ("CLI-13", r5.cli13), ("CLI-15", r5.cli15), ("CLI-16", r5.cli16), ("CLI-17", r5.cli17), ("CLI-18", r5.cli18)],
         "explanation": "Decides the cycle, filter and stage-order clauses of C20: Parser::parse returns Ok only after top-level loops that check every `%tag` reference "
                        "for existence and for cycles (detector inserts each visited tag in a set and returns on a repeat), every config slice given to the five "
                        "functions that follow `from` recursively comes from get_config = Parser::parse, and ASCAConfig literals with a reference are built only in "
